@@ -523,6 +523,28 @@ def tree_depth(t):
     return 1 + tree_depth(t["f"])
 
 
+def gen_rescale_chain_case(rng):
+    """a base functional (or a separable list) scaled two to three times through `c * f`, `f * c` and the
+    `ScaledFunctional` constructor, with factors of either sign: the flag must follow the sign of the *total* scale
+    of what `__mul__` folds, and of each constructor-level factor"""
+    cplx = bool(rng.random() < 0.3)
+    block = bool(rng.random() < 0.4)
+    shape = random_shape(rng, block)
+    tg = TreeGen(rng, cplx, allow_lossdefect=False)
+    kinds = ["l1", "sql2", "l2", "hubers", "zero", "custom"]
+    t = {"k": "sep", "fs": [tg.leaf(kinds) for _ in shape]} if block and rng.random() < 0.6 else tg.leaf(kinds)
+    for _ in range(int(rng.integers(2, 4))):
+        c = float(rng.choice([-4.0, -2.0, -1.0, -0.5, 0.5, 1.0, 2.0, 4.0, 0.0], p=[0.1, 0.1, 0.15, 0.1, 0.15, 0.1, 0.15, 0.1, 0.05]))
+        if rng.random() < 0.7:
+            t = {"k": "mul", "c": f2b(c), "side": int(rng.integers(2)), "f": t}
+        else:
+            t = {"k": "scaled", "c": f2b(c), "f": t}
+    if block and rng.random() < 0.3 and t["k"] != "sep":
+        pass
+    return {"cplx": cplx, "leaves": tg.leaves, "ops": [], "t": t,
+            "shape": [list(s) for s in shape] if block else list(shape)}
+
+
 def gen_translate_case(rng, depth=2):
     """Loss.prox translation rule with a *non-even* functional and y != 0, under rescaling chains
     (c*L, L/c, set_scale, ScaledFunctional of ScaledFunctional): real data, plain or block argument"""
